@@ -722,7 +722,24 @@ class FlowDT(DT):
             return bool(self.inline(fi))
         return bool(fi.cls and self.root_cls and (fi.cls in self.pm.mro(self.root_cls) or self.root_cls in self.pm.mro(fi.cls)))
 
+    def ev_Dict(self, n, env):
+        out = {}
+        for k, v in zip(n.keys, n.values):
+            if k is None:                                    # {**other}: the entries of a dict the evaluation holds concretely
+                other = self.concrete(self.ev(v, env))
+                if not isinstance(other, dict):
+                    raise Unsupported("** expansion of a symbolic mapping in a dict display")
+                out.update(other)
+            else:
+                out[self.concrete(self.ev(k, env))] = self.ev(v, env)
+        return out
+
     def invoke(self, fi, recv, args, n, env, kw=None):
+        a = fi.node.args
+        if a.vararg is not None:                             # *names: the surplus positional arguments as a tuple
+            n_pos = len(a.posonlyargs) + len(a.args) - (1 if fi.cls and not fi.is_static else 0)
+            kw = {**(kw or {}), a.vararg.arg: tuple(args[n_pos:])}
+            args = list(args[:n_pos])
         n_eff = len(self.run_state.effects)
         saved = dict(self.stores)
         try:
